@@ -220,7 +220,8 @@ def e2_programs(tier):
                 sv = ('#[sv::attr(serde(alias = "al_%s"))]' % n,) if n in aliases else ()
                 # written above sv::msg for h1 / q0, below it for the others
                 ms.append(Method(k, n, args, attrs=sv) if n in ("h1", "q0") else Method(k, n, args, sv_attrs=sv))
-            mattrs = tuple("%s, derive(PartialOrd)" % k for k in ords if not (where == "interface" and k in ("instantiate", "migrate")))
+            # a derive list that mentions traits whose names are contained in those the framework derives itself (Eq in PartialEq)
+            mattrs = tuple("%s, derive(PartialOrd, Eq, Hash)" % k for k in ords if not (where == "interface" and k in ("instantiate", "migrate")))
             mattrs += tuple("%s, serde(deny_unknown_fields)" % k for k in denies)
             if where == "contract":
                 c = Contract(methods=tuple([Method("instantiate", "inst", (Arg("a", "u32"),)), Method("migrate", "mig", (Arg("a", "u32"),))] + ms),
@@ -243,6 +244,7 @@ def run_e2(res, tier):
                 continue
             ty = "sv::%s" % model.MSG_NAME[k] if where == "contract" else "if0::sv::%s" % model.MSG_NAME[k]
             asserts.append("fn _ord_%s(x: &%s, y: &%s) -> Option<std::cmp::Ordering> { x.partial_cmp(y) }" % (k, ty, ty))
+            asserts.append("fn _eq_hash_%s() { fn need<T: Eq + std::hash::Hash>() {} need::<%s>(); }" % (k, ty))
         cp.add(pid, e2.render_program(pid, c, glue=e2.subject_impl(arms) + "\n" + "\n".join(asserts) + "\n"))
     cp.write()
     cp.build()
@@ -309,7 +311,7 @@ def run(tier):
                        "(3 kinds) and written on every subset of 3 arguments (quick: the three dimensions separately plus fixed cross sections; thorough: the full "
                        "product 64 x 15 x 8), contract and interface, plus two attributes for one kind/handler (order): every attribute-bearing position of "
                        "the whole expansion (types, variants, fields, impls, fns, parameters, multitest helpers) is scanned; each marker must sit exactly on its "
-                       "designated item.  E2: serde(default) on argument subsets, serde(alias) from handler subsets, derive(PartialOrd) and the container attribute serde(deny_unknown_fields) on kind subsets, "
+                       "designated item.  E2: serde(default) on argument subsets, serde(alias) from handler subsets, derive(PartialOrd, Eq, Hash) and the container attribute serde(deny_unknown_fields) on kind subsets, "
                        "compiled: omitted-field / alias documents accepted exactly where designated, partial_cmp usable on designated kinds. "
                        "non-trivial = program with at least one forwarded attribute / every E2 document")
     res.assumptions += ["the negative side of PartialOrd (not derivable on undesignated kinds) is covered by the E1 scan only"]
